@@ -37,6 +37,7 @@ def run(chk, tier):
     cyc = panics.find_cycle(edges)
     chk.ob("R-ALLOC", "call-graph", cyc is None, "call graph of the scope is acyclic" if cyc is None else "recursion: %s" % (cyc,), key="acyclic")
     term.check_loops(chk, prog, fns, "data")
+    panics.check_unpaid_growth(chk, prog, fns, edges, "data")
     term.check_seek_discipline(chk, prog, fns, interval.Engine(prog))
     if tier == "thorough":
         from nx import clippyx
